@@ -157,6 +157,8 @@ def tag_level(n1: int, t1: bool, g1: bool, n2: int, t2: bool, g2: bool, n3: int,
     pre: 1 <= count <= R.N(3)
     pre: is_group or not is_top
     pre: R.env_int("VP_K") is None or n1 == R.env_int("VP_K")
+    pre: count >= 3 or (n3 == 0 and not t3 and not g3)
+    pre: count >= 2 or (n2 == 0 and not t2 and not g2)
     post: _
     """
     # is_top: these tags sit directly in a top-level parenthesised group; is_group: they sit in some group
@@ -386,7 +388,7 @@ HARNESSES = [
          "hed.schema.hed_schema.HedSchema._find_tag_entry", "hed.schema.hed_schema.HedSchema._find_tag_subfunction",
          "hed.schema.hed_schema.HedSchema._validate_remaining_terms"],
         quick=R.tier(cells=R.str_cells(3, split1_from=2, split3_from=3, nclass=4, minlen=1), env={"VP_N": 3},
-                     timeout=300, bound="every printable-ASCII tag text s (no ',()', no outer blanks), len <= 3, "
+                     timeout=700, bound="every printable-ASCII tag text s (no ',()', no outer blanks), len <= 3, "
                                         "with and without placeholders allowed, on the mini schema"),
         thorough=R.tier(cells=R.str_cells(4, split1_from=2, split3_from=3, nclass=4, minlen=1), env={"VP_N": 4},
                         timeout=1800, path_timeout=60, bound="same with len <= 4"),
